@@ -108,15 +108,19 @@ func vMerged(t *vTier, docs [][]seq.ID, all []seq.ID, asc bool, limit int) []seq
 		if asc {
 			id = all[n-1-k]
 		}
+		have := false // a document held by several answering shards is listed once
 		for s := range docs {
 			if t.outcome[s] != vOK {
 				continue
 			}
 			for _, d := range docs[s] {
-				if d == id && len(out) < limit {
-					out = append(out, id)
+				if d == id {
+					have = true
 				}
 			}
+		}
+		if have && len(out) < limit {
+			out = append(out, id)
 		}
 	}
 	return out
@@ -142,8 +146,12 @@ func VerifDegrade() {
 	hotDocs := make([][]seq.ID, ns)
 	for i, d := range all {
 		s := rt.Choose(ns)
-		_ = i
 		hotDocs[s] = append(hotDocs[s], d)
+		if rt.Param("DUP") == 1 && i == 0 && ns > 1 && rt.Choose(2) == 1 {
+			// a bulk retried to another shard: the same document lives on two shards
+			hotDocs[(s+1)%ns] = append(hotDocs[(s+1)%ns], d)
+			rt.Reach("dup-across-shards")
+		}
 	}
 	coldDocs := make([][]seq.ID, cs)
 	for _, d := range all {
